@@ -20,10 +20,31 @@ ABSENT = Sym("<absent>")
 UNIT = Agg("tuple", None, None, [])
 
 
+HELPER_MODULES = ("mahf::state::registry::entry::", "mahf::state::registry::multi::", "mahf::state::registry::error::",
+                  "mahf::state::common::", "mahf::state::random::", "mahf::state::require::", "mahf::state::registry::", "mahf::state::")
+SUBMODULES = {"mahf::state::": ("common", "registry", "random", "require", "lens", "extract"), "mahf::state::registry::": ("entry", "multi", "error")}
+
+
+def module_helper(k):
+    """free functions (and functions in nested private modules) of the state modules: helpers the typed state's own methods are
+    split into.  Types' associated functions start with an upper-case segment, trait impls with `<`; what starts lower-case
+    directly below a module is a free function or a nested module; the existing submodules are modules of their own (longest
+    prefix first), not helpers of their parent"""
+    for m in HELPER_MODULES:
+        if k.startswith(m):
+            seg = k[len(m):].split("::")[0]
+            if seg in SUBMODULES.get(m, ()):
+                return False
+            return bool(seg) and seg[0].islower() and not seg.startswith("{")
+    return False
+
+
 def inline(k):
     """callee keys a rule using the store should let the interpreter inline: the Entry combinators, and the State sugar
     that is more than a renamed accessor (best_individual / best_objective_value, decided by C01.R6), and the (derived)
     Deref / DerefMut of the crate's state newtypes - the cells hold the newtype, the code works on what it wraps"""
+    if module_helper(k):
+        return True
     return k.startswith(ENT + "Entry::") or k.startswith("<" + ENT + "Entry") or k.startswith("mahf::state::State::best_") \
         or k.startswith("<mahf::state::common::BestIndividual") \
         or (k.startswith("<mahf::") and not k.startswith("<mahf::state::State") and (k.endswith(" as core::ops::deref::Deref>::deref") or k.endswith(" as core::ops::deref::DerefMut>::deref_mut")))
